@@ -166,6 +166,10 @@ access(all) contract World {
     access(all) fun end() { emit End() }
     access(all) fun mark(_ name: String) { emit Mark(name: name) }
     access(all) fun fail(_ m: String) { panic(m) }
+    access(all) fun rec(_ n: Int, _ boom: Bool): Int {
+        if n == 0 { if boom { panic("bottom") }; return 0 }
+        return 1 + self.rec(n - 1, boom)
+    }
     access(all) fun rich(_ n: Int) {
         emit Rich(a: n, b: n.toString(), c: [1, 2, UInt8(n % 200)], d: {"k": n}, e: 0x1, f: n % 2 == 0 ? n : nil, g: Type<@R>(), h: /storage/p,
                   i: S(n, [n], {}, [], nil, nil), k: 1.5, l: [S(1, [], {}, [], "z", [1])], m: n > 3, n: "x")
@@ -548,6 +552,8 @@ func (v *Val) Lit() string {
 			return fmt.Sprintf("(%d)", v.I)
 		}
 		return fmt.Sprintf("%d", v.I)
+	case "UInt64":
+		return fmt.Sprintf("%d", v.I)
 	case "String":
 		return fmt.Sprintf("%q", v.S)
 	case "Bool":
@@ -659,6 +665,7 @@ var obsTypes = []*Ty{
 	TArr(TInt), TArr(TString), TArr(TS), TArr(TArr(TInt)), TArr(TBool), TArr(TOpt(TInt)), TArr(TPath), TArr(TU64),
 	TDict(TString, TInt), TDict(TInt, TString), TDict(TString, TArr(TInt)), TDict(TString, TS),
 	TCArr(TInt, 3), TArr(TOpt(TString)), TArr(TOpt(TArr(TInt))),
+	TArr(TArr(TU64)), TDict(TString, TArr(TU64)),
 }
 
 func mangle(t *Ty) string {
